@@ -220,8 +220,26 @@ def r3(ctx):
     early = scenario(-11, 0)
     ctx.check('R3', 'eagain-yields', 'handle_new_connection' not in early and 'close' not in early and 'destroy_ipc_auth_data' not in early, ev,
               '-EAGAIN yields to the main loop with everything intact', '-EAGAIN does not simply yield')
-    ctx.check('R3', 'record-kind', f.uncut_path(ev, lambda a, fb: a.op == '==' and macro_named(a.r, 'QB_IPC_MSG_AUTHENTICATE') and field_is(a.l, 'id')) is None, ev,
+    is_auth = lambda a, fb: a.op == '==' and macro_named(a.r, 'QB_IPC_MSG_AUTHENTICATE') and field_is(a.l, 'id')
+    h = prog.fn('handle_new_connection')
+    allocs = list(h.calls('qb_ipcs_connection_alloc'))
+    if not allocs:
+        raise AnalysisBroken('handle_new_connection: no connection allocation')
+    # the record kind is checked before the call, or inside handle_new_connection before a connection object exists
+    kind_ok = f.uncut_path(ev, is_auth) is None or all(h.uncut_path(a, is_auth) is None for a in allocs)
+    ctx.check('R3', 'record-kind', kind_ok, ev,
               'a connection is only created for an AUTHENTICATE record', 'a record of another kind can create a connection')
+    # the accepted socket is never orphaned: every path through handle_new_connection closes it or stores it in the connection
+    sockp = h.params[2]['n']
+
+    def owns_or_closes(x):
+        if x.kind == 'CALL' and x.callee in ('qb_ipcc_us_sock_close', 'close', 'shutdown') and x.args and estr(unwrap(x.args[0])) == sockp:
+            return True
+        return x.kind == 'STORE' and x.rhs is not None and estr(unwrap(x.rhs)) == sockp and last_field(x.lhs) is not None
+    okp, pth = h.must_pass(('entry',), owns_or_closes)
+    ctx.check('R3', 'socket-closed-or-owned', okp, h, 'every path through handle_new_connection closes the accepted socket or stores it in the connection',
+              'a path through handle_new_connection returns with the accepted socket neither closed nor owned by a connection: every such handshake leaks a descriptor '
+              '(the caller has already taken it out of the main loop) until accept() fails for everybody', {'path': h.path_lines(pth) if pth else None})
     # every path that does not hand the socket over closes it (unless it yields to the main loop: return 0)
     bad = []
     for r in f.returns():
